@@ -162,16 +162,29 @@ pub enum Step {
     DeliverUpd { client: usize, n: usize },
     DeliverMut { client: usize, idx: u16 },
     DropMut { client: usize, idx: u16 },
+    /// of the queued mutate messages deliver those whose bit is set in `mask` (in order), lose the others,
+    /// run a client frame and optionally hand over all acknowledgements: one legal schedule, made frequent
+    PartialMut { client: usize, mask: u8, ack: bool },
     DeliverAck { client: usize, n: usize },
     /// server -> client event channel (index among event channels)
     DeliverSEv { client: usize, chan: u16, idx: u16 },
     DropSEv { client: usize, chan: u16, idx: u16 },
+    /// adversarial but legal schedule: hand over every queued event message first, run a client frame, then every
+    /// queued update message, and run another client frame
+    EventsFirst { client: usize },
+    /// hand over every queued event message and run a client frame; update messages stay in flight
+    EventsOnly { client: usize },
     /// client -> server event channel
     DeliverCEv { client: usize, chan: u16, idx: u16 },
     DropCEv { client: usize, chan: u16, idx: u16 },
     Disconnect { client: usize },
     Connect { client: usize },
     Authorize { client: usize },
+    /// One legal history made frequent: create traffic on `slot` (structural change, mutation, event), hand over only the
+    /// parts selected by `what` (bit 0: events + frame, so an event is queued on the client; bit 1: mutate messages + frame,
+    /// so a mutate message is buffered; bit 2: updates + frame with the acknowledgements left in flight), then end the
+    /// session (disconnect, or stop and start the server) and connect again.
+    FaultEpisode { client: usize, slot: usize, what: u8, restart: bool },
     ServerRestart,
     /// stop the server (clients are disconnected first); world operations may follow while it is stopped
     ServerStop,
